@@ -139,6 +139,14 @@ func (n Number) addQuantum(i uint64) Number {
 // Less returns true if n is less than m. Panics if n and m are a mix of integer
 // and decimal.
 func (n Number) Less(m Number) bool {
+	// Zero has no sign: a negative zero is neither less than nor
+	// different from a positive zero.
+	if n.Value == 0 {
+		n.Negative = false
+	}
+	if m.Value == 0 {
+		m.Negative = false
+	}
 	switch {
 	case n.Negative && !m.Negative:
 		return true
